@@ -28,6 +28,8 @@ REQUIRED = [P + n for n in [
     # YUV sources (yuy2, yv12) and formats without A/R/G/B bit counts in the float pipeline
     "gen_yuv_vis", "yuv_float_widening_is_8bit_widening_partial", "yuv_float_contracts_to_8bit_partial", "yuv_fetch_opaque",
     "yuv_scanline_is_map_of_fetch_pixel",
+    # accessor images: selection of the callback build (regenerated conditions)
+    "gen_accessor_selection", "accessor_build_iff_any_callback",
 ]]
 
 GENERAL = "fast mmx sse2 ssse3"
@@ -42,7 +44,10 @@ RULE = ("for every format accepted by pixman_format_supported_source/destination
         "and random words; float stores draw exact levels k/max, thresholds k/2^n +- 2 ulp, edge floats (negative, >1, denormal, "
         "huge) and uniform randoms; reader modes: scanline (s), single-pixel reader through an x-flip transform (p), each also "
         "with read/write accessor callbacks installed on the fresh image (a) or installed after the image was already used once "
-        "in a composite (b); the callbacks redirect every access to a shadow copy of the pixels (the buffer pixman is given "
+        "in a composite (b), and in both variants also with exactly one callback (o): reader only for F/FW requests, writer only "
+        "for S requests into the 29 formats whose 8-bit OP_SRC store never calls READ() on the unchanged library (8/16/24/32 bpp, "
+        "<= 8 bits per channel; measured by `format probe`; 1/4-bpp stores and every float-pipeline store read the destination "
+        "and would dereference the NULL reader); the callbacks redirect every access to a shadow copy of the pixels (the buffer pixman is given "
         "holds junk), so a bypass of the callbacks is visible in the result; YUV sources yuy2 and yv12 (planar, 1..7 rows, "
         "strides 8..32 bytes incl. odd word strides) fetched by both readers to a8r8g8b8 (Y), rgba_float (YW) and "
         "a2r10g10b10 (YX), luma/chroma biased to 16/235/128/extremes; surrounding bytes random; palettes: one consistent and one hash palette per "
@@ -251,6 +256,8 @@ def run(ctx):
     quick = ctx.tier == "quick"
     exe, info = build_harness(ctx)
     ntab = check_table(ctx, exe, info)
+    probe = [l.split() for l in subprocess.run([str(exe), "probe"], capture_output=True, text=True).stdout.split("\n") if l.strip()]
+    ctx.extra["writer_only_formats(store never calls READ)"] = sorted(t[0] for t in probe if len(t) == 4 and t[2] == "0")
     t2 = time.time()
     workers = 8 if quick else 16
     nparts = 4 * workers
